@@ -89,3 +89,19 @@ pub open spec fn wire_txt(w: Seq<u8>, i: int, first: bool) -> Seq<u8>
         if b == 0 || b > 63 || i + b + 1 > w.len() { Seq::<u8>::empty() }
         else { (if first { Seq::<u8>::empty() } else { seq![46u8] }) + esc(w.subrange(i + 1, i + 1 + b)) + wire_txt(w, i + b + 1, false) } }
 }
+
+pub proof fn lemma_skip_bounds(s: Seq<u8>, i: int)
+    ensures skip_walk(s, i) matches Some(e) ==> i < e <= s.len()
+    decreases s.len() - i
+{
+    if i < 0 || i >= s.len() {} else { let b = s[i]; if b == 0 {} else if b & 0xc0 == 0xc0 {} else if i + b + 1 > s.len() {} else { lemma_skip_bounds(s, i + b + 1); } }
+}
+// a complete pointer-free name is skipped in full
+pub proof fn lemma_plain_skip(s: Seq<u8>, i: int, nlen: int)
+    requires plain_walk(s, i, nlen).is_some()
+    ensures skip_walk(s, i) == plain_walk(s, i, nlen)
+    decreases s.len() - i
+{
+    let b = s[i];
+    if b != 0 { lemma_plain_skip(s, i + b + 1, nlen + b + 1); }
+}
